@@ -249,6 +249,39 @@ func ruleErrState(p *Prog, r *RuleResult) {
 	if !guardOK {
 		r.fail(fname+"#decoded-size-guard", p.Pos(f.Pos()), "the decoded size of a block is not checked against the declared block size (field blockSize) before it is delivered: a forged stream makes Read index past the buffers it allocated (panic in the caller's goroutine) or deliver misplaced bytes")
 	}
+	// the error of every non-skipped result is examined: from the not-skipped edge the next iteration of the scan (or
+	// a success return) cannot be reached without passing the test of the result's error
+	{
+		var errBlocks = map[*ssa.BasicBlock]bool{}
+		for _, b := range f.Blocks {
+			if ifi := blockIf(b); ifi != nil {
+				if x, _, ok := nilTest(ifi.Cond); ok && fieldVarOfLoad(x) == s.errField {
+					errBlocks[b] = true
+				}
+			}
+		}
+		for _, e := range keepEdges {
+			k0 := e.from.Succs[e.succ]
+			// loop header of the scan: a block that dominates the skipped test and is reachable from it
+			reached := reach(k0, nil, errBlocks)
+			passed := false
+			for b := range reached {
+				if b != k0 && b.Dominates(e.from) && reach(e.from, nil, nil)[b] {
+					passed = true // back at the loop header without having looked at the error
+				}
+				if ret, ok := b.Instrs[len(b.Instrs)-1].(*ssa.Return); ok && b != f.Recover && !retMayBeNil(ret, len(ret.Results)-1) {
+					continue
+				} else if ok && b != f.Recover {
+					passed = true
+				}
+			}
+			if passed {
+				r.fail(fname+"#task-error-skipped", p.IPos(e.from.Instrs[len(e.from.Instrs)-1]), "a task result can be passed over (or the scan can end successfully) without its error being examined: a block that failed before producing any byte is treated like an end-of-stream marker and the stream ends cleanly at that point")
+			} else if len(errBlocks) > 0 {
+				r.ok(fname+": every non-skipped result has its error examined before anything else can end the iteration", p.IPos(e.from.Instrs[len(e.from.Instrs)-1]))
+			}
+		}
+	}
 	// a task error found in the result scan is always returned: every return reachable from the err != nil edge
 	// carries a non-nil error (no break/continue that falls through to a success return)
 	errEdgeReturnsError(p, r, f, s.errField)
@@ -684,41 +717,53 @@ func ruleCksum(p *Prog, r *RuleResult) {
 			}
 		}
 	}
-	// must-pass-through: for each hasher field, cutting equal edges and the nil edge of its test, no clean return is reachable
-	for _, hf := range hfs {
-		cut := map[edge]bool{}
-		for e := range equalEdges {
-			cut[e] = true
-		}
-		ntest := 0
-		for _, b := range f.Blocks {
-			if ifi := blockIf(b); ifi != nil {
-				if x, succ, ok := nilTest(ifi.Cond); ok && fieldVarOfLoad(x) == hf && instrReaches(inv, ifi) {
-					cut[edge{b, 1 - succ}] = true
-					ntest++
+	// must-pass-through: a decode task may end without an error only (a) because it saw the cancel value, (b) read
+	// the end marker, (c) skipped an out-of-range block, or (d) passed the comparison of every hasher that is set.
+	// For each hasher field: cutting the cancel / end-marker edges, the equal edges and the nil edge of the hasher's
+	// tests, and avoiding the blocks that mark a skip or store an error, no return is reachable from the entry.
+	{
+		da := analyseDecode(p)
+		for _, hf := range hfs {
+			cut := map[edge]bool{}
+			for e := range equalEdges {
+				cut[e] = true
+			}
+			for _, e := range da.cancelEdge {
+				cut[e] = true
+			}
+			for _, e := range da.endEdge {
+				cut[e] = true
+			}
+			ntest := 0
+			for _, b := range f.Blocks {
+				if ifi := blockIf(b); ifi != nil {
+					if x, succ, ok := nilTest(ifi.Cond); ok && fieldVarOfLoad(x) == hf && instrReaches(inv, ifi) {
+						cut[edge{b, 1 - succ}] = true
+						ntest++
+					}
 				}
 			}
-		}
-		avoid := map[*ssa.BasicBlock]bool{}
-		// blocks with an error store: paths through them are not clean. (stores are at block granularity here:
-		// every error store in decode is followed by a return in the same block)
-		for st := range errStores {
-			avoid[st.Block()] = true
-		}
-		reached := reach(invOK, cut, avoid)
-		bad := false
-		for b := range reached {
-			if b == f.Recover {
-				continue
+			avoid := map[*ssa.BasicBlock]bool{}
+			for st := range errStores {
+				avoid[st.Block()] = true
 			}
-			if ret, ok := b.Instrs[len(b.Instrs)-1].(*ssa.Return); ok {
-				bad = true
-				r.fail(fmt.Sprintf("%s#bypass.%s", fname, hf.Name()), p.IPos(ret), fmt.Sprintf("a clean exit of decode after the inverse transform is reachable without passing the %s comparison although the hasher may be set: the checksum can be bypassed", hf.Name()))
-				break
+			for _, st := range da.skipStores {
+				avoid[st.Block()] = true
 			}
-		}
-		if !bad {
-			r.ok(fmt.Sprintf("%s: every clean exit after Inverse passes the %s comparison or sees the hasher nil (%d nil tests)", fname, hf.Name(), ntest), p.IPos(inv))
+			bad := false
+			for b := range reach(f.Blocks[0], cut, avoid) {
+				if b == f.Recover {
+					continue
+				}
+				if ret, ok := b.Instrs[len(b.Instrs)-1].(*ssa.Return); ok {
+					bad = true
+					r.fail(fmt.Sprintf("%s#bypass.%s", fname, hf.Name()), p.IPos(ret), fmt.Sprintf("a decode task can finish without an error on a path that is neither cancel, end marker nor range skip and that does not pass the %s comparison although the hasher may be set: the checksum can be bypassed (a damaged block is delivered as a success)", hf.Name()))
+					break
+				}
+			}
+			if !bad {
+				r.ok(fmt.Sprintf("%s: every clean exit that delivers a block passes the %s comparison or sees the hasher nil (%d nil tests)", fname, hf.Name(), ntest), p.IPos(inv))
+			}
 		}
 	}
 
